@@ -19,12 +19,10 @@ Inductive kres (A : Type) :=
 | KOk (a : A)        (* the kernel returned a *)
 | KOob               (* a write beyond a pre-sized buffer *)
 | KTail              (* returned with an unwritten buffer tail *)
-| KZeroDiv           (* ZeroDivisionError raised inside the kernel *)
 | KFuel.             (* out of fuel: the loop had not finished *)
 Arguments KOk {A} a.
 Arguments KOob {A}.
 Arguments KTail {A}.
-Arguments KZeroDiv {A}.
 Arguments KFuel {A}.
 
 Fixpoint set_nth {A} (l : list A) (n : nat) (v : A) : list A :=
@@ -37,13 +35,6 @@ Fixpoint set_nth {A} (l : list A) (n : nat) (v : A) : list A :=
 (* x[i] = v on a scratch array (no effect outside it) *)
 Definition wr {A} (l : list A) (i : Z) (v : A) : list A :=
   if i <? 0 then l else set_nth l (Z.to_nat i) v.
-
-(* for i in range(cnt): seg = l[w*i : w*(i+1)]; l[w*i : w*(i+1)] = seg[::-1] *)
-Fixpoint rev_chunks {A} (w cnt : nat) (l : list A) : list A :=
-  match cnt with
-  | O => l
-  | S c => rev (firstn w l) ++ rev_chunks w c (skipn w l)
-  end.
 
 Section Dot.
   Variable V : Type.
@@ -137,6 +128,16 @@ Section Dot.
        if negb (znth nx head 0 =? -1) then (head, znth sm head vzero) :: r else r)
     end.
 
+  (*  order = np.argsort(indices[indptr[i] : nnz]); indices[indptr[i] : nnz] = ...[order]; data likewise:
+      the cells written for this row, sorted by column.  (Insertion sort; the columns of a row are
+      pairwise distinct — proved — so every sorting permutation gives this list.) *)
+  Fixpoint ins_cell (c : Z * V) (l : list (Z * V)) : list (Z * V) :=
+    match l with
+    | [] => [c]
+    | d :: r => if fst c <=? fst d then c :: l else d :: ins_cell c r
+    end.
+  Definition sort_cells (l : list (Z * V)) : list (Z * V) := fold_right ins_cell [] l.
+
   (* one iteration of `for i in range(n_row)`; state: sums (carried over), written cells, indptr *)
   Definition row_step (n_col : Z) (a b : csr) (st : list V * list (Z * V) * list Z) (i : Z)
     : list V * list (Z * V) * list Z :=
@@ -144,30 +145,23 @@ Section Dot.
     let '(nx, sm1, head, len) :=
       fold_left acc_step (prod_stream a b i) (repeat (-1) (Z.to_nat n_col), sm, -2, 0) in
     let '(_, sm2, _, r) := emit (Z.to_nat len) nx sm1 head in
-    (sm2, out ++ r, indptr ++ [Z.of_nat (length (out ++ r))]).
+    (sm2, out ++ sort_cells r, indptr ++ [Z.of_nat (length (out ++ r))]).
 
   Definition spgemm_loops (n_row n_col : Z) (a b : csr) : list V * list (Z * V) * list Z :=
     fold_left (row_step n_col a b) (zrange n_row) (repeat vzero (Z.to_nat n_col), [], [0]).
 
-  (* the whole kernel: pre-count, loops, and the final "result is fully dense => reverse every
-     row" patch  `if len(indices) == n_col * n_row: for i in range(len(indices) // n_col): ...` *)
+  (* the whole kernel: pre-count (capacity of the output buffers), then the loops *)
   Definition dot_csr_csr (n_row n_col : Z) (a b : csr) : kres csr :=
     let cap := csr_csr_count_nnz n_row n_col (m_indices a) (m_indices b) (m_indptr a) (m_indptr b) in
     let '(_, out, indptr) := spgemm_loops n_row n_col a b in
     let written := Z.of_nat (length out) in
     if cap <? written then KOob
     else if written <? cap then KTail
-    else if cap =? n_col * n_row then
-      if n_col =? 0 then KZeroDiv
-      else
-        let cnt := Z.to_nat (cap / n_col) in
-        let w := Z.to_nat n_col in
-        KOk (mkCSR (rev_chunks w cnt (map snd out)) (rev_chunks w cnt (map fst out)) indptr)
     else KOk (mkCSR (map snd out) (map fst out) indptr).
 
   (* ------------------------------------------------------------------ _dot_coo_coo *)
-  (* the same loops; every written cell also records its row: coords[0, nnz] = i.  No patch.
-     Result: (rows, cols, data). *)
+  (* the same loops without the per-row sort; every written cell also records its row:
+     coords[0, nnz] = i.  Result: (rows, cols, data), which COO(..., sorted=False) then sorts. *)
   Definition coo_row_step (n_col : Z) (a b : csr) (st : list V * list (Z * Z * V)) (i : Z)
     : list V * list (Z * Z * V) :=
     let '(sm, out) := st in
@@ -198,8 +192,8 @@ Section Dot.
      array2 is b.T: array2[oidx2, j] is read as a function.  out is a function updated pointwise
      (out = np.zeros(out_shape)).  The inner `while didx1 < len(data1) and coords1[0,didx1] ==
      oidx1` strictly advances didx1 towards len(data1): it is the structural recursion [scan_run]
-     over the n - didx1 remaining entries.  The OUTER `while didx1 < len(data1)` has no evident
-     variant and runs on fuel. *)
+     over the n - didx1 remaining entries.  The OUTER
+     `while didx1 < len(data1) and out_shape[1] > 0` has no evident variant and runs on fuel. *)
   Definition dense2 := (Z -> Z -> V).
   Definition upd2 (o : dense2) (i j : Z) (v : V) : dense2 :=
     fun i' j' => if (i' =? i) && (j' =? j) then v else o i' j'.
@@ -226,7 +220,7 @@ Section Dot.
 
   Fixpoint cn_while (fuel : nat) (rows cols : list Z) (data : list V) (array2 : dense2) (out_cols : Z)
            (didx1 : Z) (out : dense2) : kres dense2 :=
-    if didx1 <? Z.of_nat (length data) then
+    if (didx1 <? Z.of_nat (length data)) && (0 <? out_cols) then
       match fuel with
       | O => KFuel
       | S f =>
